@@ -25,6 +25,7 @@ func TestMain(m *testing.M) {
 		{Test: "TestAnchor", Quick: 1, Thorough: 1},
 		{Test: "TestWholeLife", Quick: 12, Thorough: 16},
 		{Test: "TestHistoryIndependence", Quick: 4, Thorough: 8},
+		{Test: "TestTallKey", Quick: 1, Thorough: 6},
 	})
 }
 
@@ -196,6 +197,14 @@ func init() {
 		key, msg := runLife(r, &c)
 		r.Check(t, key == "", key, &c, "%s", msg)
 	})
+	ev.Register("TestTallKey", func(t *testing.T, r *ev.Recorder, raw json.RawMessage) {
+		var c histCase
+		if err := json.Unmarshal(raw, &c); err != nil {
+			t.Fatalf("HARNESS-HEALTH: %v", err)
+		}
+		key, msg := runHist(r, &c, nil)
+		r.Check(t, key == "", key, &c, "%s", msg)
+	})
 	ev.Register("TestHistoryIndependence", func(t *testing.T, r *ev.Recorder, raw json.RawMessage) {
 		var c histCase
 		if err := json.Unmarshal(raw, &c); err != nil {
@@ -280,6 +289,66 @@ func jumps(ops []histOp) []uint32 {
 		j = append(j, o.Jump)
 	}
 	return j
+}
+
+// TestTallKey: heights whose leaf / node indices exceed one byte (h >= 10). Whole-life comparison at these
+// heights is in the thorough tier; here the public key and the signatures at indices on both sides of every
+// byte boundary of the index (255|256, 511|512, ...) are compared after forward jumps.
+func TestTallKey(t *testing.T) {
+	r := ev.New(t, prop, "TestTallKey")
+	r.Rule("a key of height 10 (quick: one hash function chosen by VERIF_SEED; thorough: h=10 all hashes and h=12 all hashes) from a rapid seed: public key compared with the reference, then signatures at 0, 1, 2^k-1, 2^k for every k < h, the last two indices and a few drawn ones, reached by SetIndex, compared byte-for-byte with xmssref.Sign; non-trivial = each compared signature at an index >= 256, distinct by (hash,h,seed,index)")
+	type th struct {
+		hf xmss.HashFunction
+		h  int
+	}
+	var list []th
+	if r.Thorough() {
+		for _, hf := range pu.Hashes {
+			list = append(list, th{hf, 10}, th{hf, 12})
+		}
+	} else {
+		list = []th{{pu.Hashes[int(r.Seed()%3)], 10}}
+	}
+	for li, e := range list {
+		if !r.Mine(li) {
+			continue
+		}
+		e := e
+		r.Rapid(t, fmt.Sprintf("tall-%d", li), 1, func(rt *rapid.T) {
+			c := &histCase{Hash: uint(e.hf), H: e.h, Seed: pu.Seed48().Draw(rt, "seed")}
+			idxs := []uint32{0, 1}
+			for k := 1; k < e.h; k++ {
+				idxs = append(idxs, 1<<uint(k)-1, 1<<uint(k))
+			}
+			idxs = append(idxs, 300, 1<<uint(e.h)-2, 1<<uint(e.h)-1)
+			for i := 0; i < 6; i++ {
+				idxs = append(idxs, uint32(rapid.IntRange(256, 1<<uint(e.h)-1).Draw(rt, "idx")))
+			}
+			// sort + dedupe, then turn into jumps
+			for a := 1; a < len(idxs); a++ {
+				for b := a; b > 0 && idxs[b] < idxs[b-1]; b-- {
+					idxs[b], idxs[b-1] = idxs[b-1], idxs[b]
+				}
+			}
+			cur := uint32(0)
+			for _, ix := range idxs {
+				if ix < cur {
+					continue
+				}
+				c.Ops = append(c.Ops, histOp{Jump: ix - cur, Msg: pu.Msg(100).Draw(rt, "msg")})
+				cur = ix + 1
+			}
+			x := pu.NewXMSS(c.Seed, c.H, e.hf)
+			ref := refKey(c.Seed, c.H, e.hf)
+			pk := x.GetPK()
+			r.Eval(1)
+			r.Check(rt, bytes.Equal(pk[:], pu.RefPK(ref, e.hf)), "pk/mismatch", c, "hash=%s h=%d: public key differs from the reference", pu.HashName(e.hf), e.h)
+			key, msg := runHist(r, c, nil)
+			r.Count(fmt.Sprintf("tall_%s_h%d", pu.HashName(e.hf), e.h), 1)
+			r.Sample(map[string]any{"hash": pu.HashName(e.hf), "h": e.h, "indices": idxs})
+			r.Check(rt, key == "", key, c, "%s", msg)
+		})
+	}
 }
 
 func TestHistoryIndependence(t *testing.T) {
